@@ -1352,4 +1352,27 @@ theorem sort_idempotent (ivs : List Iv) : sortGenome (sortGenome ivs) = sortGeno
   List.mergeSort_of_pairwise (List.pairwise_mergeSort keyLe_trans keyLe_total ivs)
 
 
+
+/-- **C10.binned_iff** — `BinnedGenome.count` with NO assumption on the locations: it gives a result exactly when every
+location lies inside its chromosome, and then every chromosome's bins count exactly that chromosome's own locations;
+otherwise an error is raised. Without the validation (`binnedCounts`, the shipped rule) a position beyond its
+chromosome was counted in the neighbouring chromosome's first bin (witness: chr1:4 on sizes [4, 4], bin size 2). -/
+theorem binned_iff (b : Nat) (hb : 0 < b) (sizes : List Nat) (pts : List (Nat × Nat)) :
+    ((∀ x ∈ pts, x.1 < sizes.length ∧ x.2 < size sizes x.1) → binnedChecked b sizes pts = some (specBinned b sizes pts)) ∧
+    (¬ (∀ x ∈ pts, x.1 < sizes.length ∧ x.2 < size sizes x.1) → binnedChecked b sizes pts = none) ∧
+    binnedCounts 2 [4, 4] [(0, 4)] = [[0, 0], [1, 0]] := by
+  refine ⟨?_, ?_, by decide⟩
+  · intro hv
+    have : pts.all (fun x => decide (x.1 < sizes.length) && decide (x.2 < size sizes x.1)) = true := by
+      simp only [List.all_eq_true, Bool.and_eq_true, decide_eq_true_eq]; exact hv
+    simp [binnedChecked, this, binned_local b hb sizes pts hv]
+  · intro hn
+    have : pts.all (fun x => decide (x.1 < sizes.length) && decide (x.2 < size sizes x.1)) = false := by
+      cases h : pts.all (fun x => decide (x.1 < sizes.length) && decide (x.2 < size sizes x.1)) with
+      | false => rfl
+      | true =>
+        simp only [List.all_eq_true, Bool.and_eq_true, decide_eq_true_eq] at h
+        exact absurd h hn
+    simp [binnedChecked, this]
+
 end C10
